@@ -876,9 +876,13 @@ def main(pid, tier, repo=None):
     rule_shuffle_eval(ctx)
     rule_interp_eval(ctx)
     # no unwrap/expect/index panic on the error path: decode_icc returns Result and converts slice errors
-    ctx.not_decided("byte equality of the decoded profile with the embedded one for every encoding (value-level round trip); the predictor "
-                    "arithmetic and the shuffle permutations")
+    ctx.not_decided("byte equality of the decoded profile with the embedded one for EVERY encoding (value-level round trip): the interpreter is "
+                    "compared with the format on 53 scripted streams and the shuffles on 20 lengths, not on all streams; the entropy-coded "
+                    "byte stream in front of it (read_icc / get_icc_ctx context modelling) is covered only by its rejection checks")
     return ctx.finish(
-        "Claimed narrowly: the rejection clause. The 24 consistency conditions of the ICC stream decoder are reconstructed from MIR as "
+        "Two clauses. (1) Rejection: the 24 consistency conditions of the ICC stream decoder are reconstructed from MIR as "
         "compare -> error checks and compared with a reviewed table, so a dropped or relaxed condition is reported with the checks that "
-        "are there now. Byte-exactness of accepted profiles is not decided.")
+        "are there now. (2) The interpreter on scripts: predict_header (every position), shuffle2 / shuffle4 (every small length) and the "
+        "whole of decode_icc (53 scripted command streams that use every command, shortcut and rejection) are evaluated from MIR by the "
+        "abstract evaluator over concrete bytes and compared with an interpreter written from the format; found D62 (a stream ending "
+        "inside the tag list skipped the final size check). Byte-exactness for every stream is not decided.")
